@@ -106,9 +106,9 @@ Theorem C05_history_origin : forall k ops, single k = true -> Forall (op_wf k) o
 Proof. exact history_origin_fresh. Qed.
 Print Assumptions C05_history_origin.
 
-Theorem C05_only_decode_and_produce_change_the_authenticated_part : forall k o e,
+Theorem C05_only_decode_and_produce_change_the_authenticated_part : forall k o e, single k = true ->
   installs e (snd (step k o e)) = false -> oauthd (fst (step k o e)) = oauthd o.
-Proof. exact frame. Qed.
+Proof. exact frame_single. Qed.
 Print Assumptions C05_only_decode_and_produce_change_the_authenticated_part.
 
 Theorem C05_history_example : single KMac0 = true /\ Forall (op_wf KMac0) ex_ops
